@@ -54,6 +54,7 @@ type Executor struct {
 	cloInfo   map[string]*FnVal
 	writtenMemo map[*ssa.Function]map[string]bool
 	safety  bool
+	anchorLost bool // a contract refers to a source name the function no longer has
 }
 
 type sliceInfo struct{ arr, off, len, cap *Term }
